@@ -87,6 +87,11 @@ def order(ctx: Any) -> List[Ob]:
             if w is not None:
                 stale.append((a, s_))
     obs.append(ob(R, g, stale[0][0].ast if stale else 'conflict check ; probe', 'after every wait the conflict check runs again before the next probe is sent (a conflict learnt while waiting is seen before, not after, the probe)', bool(awaits) and not stale, f'the wait at line {stale[0][0].line} can be followed by the probe at line {stale[0][1].line} without a new conflict check' if stale else ''))
+    # what the conflict check consults cannot lose a pointer: every index of the cache keeps all records that share a key (an
+    # instance advertised under a type and a subtype has two pointers with the same target)
+    from .c05 import index_shape_obligations
+
+    obs.extend(index_shape_obligations(ctx, R))
     ct = conflict_tests[0]
     call = next(c for c in ct.calls() if call_name(c) == 'current_entry_with_name_and_alias')
     obs.append(ob(R, g, call, 'the conflict check looks for a live pointer of the service type to the proposed instance name', [norm(a) for a in call.args] == [f'{g.params[1]}.type', f'{g.params[1]}.name']))
